@@ -16,7 +16,8 @@ EXPLANATION = (
     "rectify_equilibration: Zero/Nonnegative cones return identity+false, every other cone type returns "
     "e^-1*mean(e) + true (exhaustive over impl Cone), the composite applies each cone to its own slice of both "
     "arguments and ORs the results, and equilibrate re-applies the rectification to A, b and e before forming the "
-    "inverses; (R5) disabled => no write at all; (R6) column/row norms feed the right work vector.")
+    "inverses; (R5) disabled => no write at all; (R6) column/row norms feed the right work vector."
+    " R4 also: no pass of the composite cone loop skips the per-cone rectification for a cone type whose own rectification is not the no-op (skip condition evaluated per cone type from constant layout predicates).")
 ASSUMPTIONS = ['rustc MIR construction and trait resolution are correct',
                'algebra primitives (lrscale, hadamard, col_norms, clip, mean ...) have their documented meaning',
                'the mean of values inside [lo,hi] lies inside [lo,hi]']
@@ -195,6 +196,7 @@ def rectification(rep, F, tag):
     def body():
         impls = [f for f in F.find(name='rectify_equilibration', trait='Cone') if f.impl_adt]
         seen = set()
+        noop = set()
         for f in impls:
             K = last_seg(strip_generics(f.impl_adt))
             if K in ('CompositeCone', 'SupportedCone'):
@@ -207,6 +209,8 @@ def rectification(rep, F, tag):
             r0 = canon(f.sym_local(0))
             if K in SCALAR_CONES:
                 ident = any(k in ('set(arg2, one())', 'fill(arg2, one())') for k in calls)
+                if ident and r0 == 'false' and not uniform:
+                    noop.add(K)
                 R.check((ident and r0 == 'false') or (uniform and r0 == 'true'), 'class|%s%s' % (K, tag),
                         '%s::rectify_equilibration: neither (delta:=1, false) nor (delta:=mean(e)/e, true): calls %s returns %s' % (K, calls, r0), f.loc())
             else:
@@ -227,6 +231,42 @@ def rectification(rep, F, tag):
             if m and m.group(2) == m.group(3) and '@Some.0.1' in m.group(2):
                 ok = True
         R.check(ok, 'composite-slices' + tag, 'composite does not hand each cone the same range of delta and e: %s' % [k[:140] for k in inner], cc.loc())
+        # ... for every cone: no iteration of the cone loop may skip the per-cone call (which cones are scaled uniformly is each cone's
+        # own decision - a composite-side filter by layout flags also skips sparse-expanded second-order cones)
+        n_it = 0
+        for val, ret, ev, tr in leaves:
+            it = [k for k in val if k.startswith('discr(next(') and '@Some' not in k and val[k] == 1]
+            if not it:
+                continue
+            n_it += 1
+            called = any(e[0] == 'call' and str(e[2]).startswith('rectify_equilibration(') for e in ev)
+            if called:
+                continue
+            # a skipped pass is harmless only for cone types whose own rectification is the no-op (delta := 1, false); decide, per cone
+            # type, whether the skip condition can hold for it (layout predicates that are constants of the type are evaluated)
+            conds = {k: v for k, v in val.items() if not (k.startswith('discr(next(') and '@Some' not in k)}
+            hit = []
+            for K in sorted(seen | ({'PSDTriangleCone'} if F.find(name='rectify_equilibration', adt='PSDTriangleCone', trait='Cone') else set())):
+                possible = True
+                for k, v in conds.items():
+                    m = re.fullmatch(r'(\w+)\((.*)@Some\.0\.0\)', k)
+                    if not m:
+                        continue    # not a statement about the cone: cannot exclude the type
+                    if m.group(1) == 'discr':
+                        vn = [x['n'] for x in F.adt('SupportedCone')['variants']]
+                        if isinstance(v, int) and 0 <= v < len(vn) and vn[v] != K:
+                            possible = False
+                        continue
+                    g = F.find(name=m.group(1), adt=K, trait='Cone')
+                    if len(g) == 1:
+                        c0 = canon(g[0].sym_local(0))
+                        if c0 in ('true', 'false') and (c0 == 'true') != bool(v):
+                            possible = False
+                if possible and K not in noop:
+                    hit.append(K)
+            R.check(not hit, 'composite-every-cone' + tag, 'a pass of the composite cone loop skips rectify_equilibration under %s, which can hold for %s: those cones keep '
+                    'non-uniform row scalings (their own rectification is not the no-op)' % ({k[:60]: v for k, v in conds.items()}, hit), cc.loc())
+        R.check(n_it >= 1, 'composite-loop' + tag, 'no cone loop iteration found in CompositeCone::rectify_equilibration', cc.loc())
         # OR of the results
         ors = [canon(cc.sym_rvalue(st['rv'])) for bi, si, st in cc.assignments() if st['rv']['k'] == 'bin' and st['rv']['op'] in ('BitOr',)]
         orc = [c for c in cc.calls if c.callee.name in ('bitor_assign', 'bitor')]
